@@ -1559,6 +1559,142 @@ def r10_exact_names(run):
                 run.check(ok, '%s %s' % (tag, what), fn, cons, where=fn.loc(cons) if isinstance(cons, ast.AST) else fn.loc(), runtime_witness=rw)
             if getattr(an, 'table_rx', None) is not None:
                 run.sample({'rule': 'R10', 'accessor': g.qual, 'extended parameter': key + '*', 'pattern': an.table_rx, 'decoding': _EXTENDED_DECODING})
+    _r10_secure_filename(run)
+
+
+# R10 (continued, added after seeded change s9-c13-3): `secure_filename` is the library sanitiser applied to
+# `filename` ITSELF.  Provenance of the sanitiser's argument: through locals, `or` operands and the branches of a
+# conditional expression that tests the value itself, every terminal is the read of the part's `filename` accessor
+# (whose own provenance is decided above) or the tabled fallback for an unset name; a terminal that contains the
+# read under anything else (`.strip()`, `.lower()`, a slice, `os.path.basename(...)`, an f-string) alters the name
+# the sanitiser was documented to see.  Likewise the sanitiser's result is returned as it is.
+SANITISER = 'falcon.util.misc.secure_filename'
+SANITISER_SOURCE = 'filename'
+# constant stand-ins for an unset filename, with the reason they are the same thing
+_SECURE_FALLBACK = {'': 'unset / empty name: the sanitiser refuses the empty string with the ValueError the accessor maps to the parse error',
+                    None: 'unset name passed on as it is: the sanitiser refuses every false value the same way as the empty string'}
+
+
+def _r10_secure_filename(run):
+    """BodyPart.secure_filename == misc.secure_filename(<filename, unchanged>) for both flavours.
+    Runtime witness: filename=' a.txt' -> '_a.txt' (every non-portable character, leading / trailing blanks included, becomes '_');
+    with `.strip()` before the sanitiser it is 'a.txt', and a name of blanks only raises instead of giving '__'."""
+    from .c13_helpers import Defs, property_alias
+    p = run.project
+    rw = ("filename=' a.txt' -> secure_filename 'a.txt' instead of '_a.txt'; filename='  ' -> MultipartParseError instead of '__'")
+    seen = {}
+    for tag, cq in (('WSGI', SYNC_PART), ('ASGI', ASGI_PART)):
+        g = p.lookup_method(cq, 'secure_filename') or property_alias(p, cq, 'secure_filename')
+        if g is None:
+            raise AnchorError('%s.secure_filename not found' % cq)
+        src = p.lookup_method(cq, SANITISER_SOURCE) or property_alias(p, cq, SANITISER_SOURCE)
+        if src is None or not src.is_property():
+            raise AnchorError('%s.%s is not a property' % (cq, SANITISER_SOURCE))
+        if g.qual in seen:
+            run.ok('%s BodyPart.secure_filename is inherited unchanged from the %s flavour' % (tag, seen[g.qual]), g.loc(), '%s.secure_filename' % cq)
+            continue
+        seen[g.qual] = tag
+        run.use(g)
+        defs = Defs(g)
+
+        def is_sanitiser(x):
+            if not isinstance(x, ast.Call):
+                return False
+            t = p.callee(g, x)
+            return isinstance(t, Func) and t.qual == SANITISER
+
+        def is_source(e):
+            return attr_chain(e) == ('self', SANITISER_SOURCE)
+
+        def mentions_source(e, seen_names=()):
+            for x in ast.walk(e):
+                if is_source(x):
+                    return True
+                if isinstance(x, ast.Name) and x.id not in seen_names and x.id not in defs.params:
+                    for d in defs.defs.get(x.id, []):
+                        s = d[1] if d[0] == 'assign' else (d[2] if d[0] in ('unpack', 'aug') else None)
+                        if isinstance(s, ast.AST) and mentions_source(s, seen_names + (x.id,)):
+                            return True
+            return False
+
+        def truth_of_source(t):
+            """`t` tests nothing but whether the filename is set: `<src>`, `not <src>`, `<src> is [not] None` (src through locals)."""
+            if isinstance(t, ast.UnaryOp) and isinstance(t.op, ast.Not):
+                return truth_of_source(t.operand)
+            if isinstance(t, ast.Compare) and len(t.ops) == 1 and isinstance(t.ops[0], (ast.Is, ast.IsNot, ast.Eq, ast.NotEq)) \
+                    and isinstance(t.comparators[0], ast.Constant) and t.comparators[0].value in _SECURE_FALLBACK:
+                t = t.left
+            try:
+                ts = terminals(t)
+            except UnknownIdiom:
+                return False
+            return bool(ts) and all(is_source(x) or (isinstance(x, ast.Constant) and x.value in _SECURE_FALLBACK) for x in ts)
+
+        def terminals(e, names=()):
+            e = strip_await(e)
+            if isinstance(e, ast.NamedExpr):
+                return terminals(e.value, names)
+            if isinstance(e, ast.BoolOp) and isinstance(e.op, ast.Or):
+                return [t for v in e.values for t in terminals(v, names)]       # `a or b` is one of its operands, unchanged
+            if isinstance(e, ast.IfExp):
+                if not truth_of_source(e.test):
+                    raise UnknownIdiom('%s: `%s` chooses the sanitised value by a test the rule does not read' % (g.qual, short(e)))
+                return terminals(e.body, names) + terminals(e.orelse, names)
+            if isinstance(e, ast.Name) and e.id in defs.defs and e.id not in defs.params:
+                if e.id in names:
+                    return []
+                out = []
+                for d in defs.defs[e.id]:
+                    if d[0] != 'assign':
+                        return [e]
+                    out += terminals(d[1], names + (e.id,))
+                return out
+            return [e]
+
+        rets = [n for n in walk_no_nested(g.node) if isinstance(n, ast.Return) and n.value is not None]
+        if not rets:
+            raise AnchorError('%s returns nothing' % g.qual)
+        calls, done = [], set()
+        for r in rets:
+            for t in terminals(r.value):
+                if id(t) in done:
+                    continue
+                done.add(id(t))
+                if is_sanitiser(t):
+                    calls.append(t)
+                    run.ok('%s BodyPart.secure_filename hands out what the library sanitiser (%s) returned, unchanged' % (tag, SANITISER), g.loc(t), short(t))
+                    continue
+                inner = [x for x in ast.walk(t) if is_sanitiser(x)]
+                if not inner and isinstance(t, ast.Name):
+                    inner = [x for d in defs.defs.get(t.id, []) for s in d[1:] if isinstance(s, ast.AST) for x in ast.walk(s) if is_sanitiser(x)]
+                if not inner:
+                    raise AnchorError('%s: returns `%s`, which is not derived from a call of %s' % (g.qual, short(t), SANITISER))
+                calls += inner
+                run.fail('%s BodyPart.secure_filename hands out what the library sanitiser (%s) returned, unchanged' % (tag, SANITISER), g, t,
+                         where=g.loc(t), runtime_witness="filename='Report.PDF' comes back as something other than secure_filename('Report.PDF')")
+        done = set()
+        for c in calls:
+            if id(c) in done:
+                continue
+            done.add(id(c))
+            if len(c.args) != 1 or c.keywords or isinstance(c.args[0], ast.Starred):
+                raise UnknownIdiom('%s: arguments of `%s` not understood' % (g.qual, short(c)))
+            n_src = 0
+            for t in terminals(c.args[0]):
+                what = ('%s BodyPart.secure_filename sanitises the part\'s `filename` itself: nothing is applied to the name between the accessor and '
+                        'the sanitiser (tabled fallbacks for an unset name: %s)' % (tag, ', '.join(repr(k) for k in _SECURE_FALLBACK)))
+                if is_source(t):
+                    n_src += 1
+                    run.ok(what, g.loc(t), short(c))
+                elif isinstance(t, ast.Constant) and t.value in _SECURE_FALLBACK and (t.value is None or isinstance(t.value, str)):
+                    run.sample({'rule': 'R10', 'accessor': g.qual, 'fallback': repr(t.value), 'reason': _SECURE_FALLBACK[t.value]})
+                elif mentions_source(t):
+                    n_src += 1
+                    run.fail(what, g, t, where=g.loc(t), runtime_witness=rw)
+                else:
+                    raise UnknownIdiom('%s: the sanitiser is given `%s`, which is neither the part\'s filename nor a tabled fallback' % (g.qual, short(t)))
+            if n_src == 0:
+                raise AnchorError('%s: `%s` never sees self.%s' % (g.qual, short(c), SANITISER_SOURCE))
 
 
 # ---------------------------------------------------------------------------
